@@ -310,8 +310,15 @@ def check(ctx):
                 probs.append(f"fresh rows are filled with {got_fill}, the array was allocated with {alloc_fill} (unused rows must stay distinguishable: NaN never equals a logged point)")
             if info["amount"] is None:
                 probs.append("number of added rows not recognised")
-            else:
+            elif info["amount"] != "?":
                 amounts.add(info["amount"])
+            # a conditionally allocated array must be grown under an equivalent condition
+            ga = [x for x in guard_canon_(prog, R.logger_cls.find_method("__init__"), arrays[a]["stmt"]) if "cache_size" not in x]
+            gg = guard_canon_(prog, gfn, s_)
+            if sorted(ga) != sorted(gg):
+                why = _guards_equivalent(prog, R, ga, gg)
+                if why is not True:
+                    probs.append(f"it is allocated under {ga or ['always']} but grown under {gg or ['always']} ({why}): the array can be missing or keep its old length when the cache grows")
             cb = info["copy_bound"]
             if cb not in ("all", filled, f"self.{a}.shape[0]"):
                 probs.append(f"only rows [:{cb}] are copied but rows [:{filled}] are filled when growth runs ({'before' if before_inc else 'after'} the row counter is advanced)")
@@ -479,6 +486,39 @@ def check(ctx):
 
     ctx.assume("numpy semantics: argwhere of a rank-1 mask yields row indices; np.append(a, b, axis=0) keeps a's rows first")
     ctx.assume("per-row arrays are exactly those allocated in FunctionLogger.__init__ with cache_size rows")
+
+
+def guard_canon_(prog, fn, node):
+    from ..terms import guard_canon
+
+    return guard_canon(prog, fn, node)
+
+
+def _guards_equivalent(prog, R, ga, gg):
+    """two different guards on logger attributes are accepted when each attribute is
+    written only in the logger's constructor (immutable afterwards) and BADS constructs
+    the logger with the equivalent values (noise_flag = level > 0)."""
+    import re
+
+    attrs = set()
+    for g in list(ga) + list(gg):
+        attrs |= set(re.findall(r"self\.(\w+)", g))
+    init = R.logger_cls.find_method("__init__")
+    for fn in prog.functions():
+        for t, v, s, k in iter_stores(fn.node):
+            b = store_base(t)
+            if isinstance(b, ast.Attribute) and b.attr in attrs:
+                recv_is_logger = (fn.cls is R.logger_cls and isinstance(b.value, ast.Name) and b.value.id == "self") or canon(b.value) == "LOG"
+                if recv_is_logger and fn is not init:
+                    return f"attribute {b.attr} of the logger is modified after construction in {fn.short}"
+    okset = {("self.noise_flag",), ("(0 < self.uncertainty_handling_level)",), ("(1 <= self.uncertainty_handling_level)",)}
+    if tuple(ga) in okset and tuple(gg) in okset:
+        bnd = R.logger_ctor_bound
+        nf, lv = bnd.get("noise_flag"), bnd.get("uncertainty_handling_level")
+        if nf is not None and lv is not None and canon(nf) in (f"(0 < {canon(lv)})", f"(1 <= {canon(lv)})"):
+            return True
+        return "BADS does not construct the logger with noise_flag = (level > 0)"
+    return "conditions not comparable"
 
 
 def find_appends(fn: FunctionInfo):
